@@ -144,7 +144,7 @@ Theorem mark_dropped_extends_cool_off_refuted :
     cenabled c = true /\ cpu < cthreshold c /\
     no_recent_overload (cthreshold c) now pre = true /\
     snd (step_md (final_by step_md (init c t0) pre) (OAllow now cpu cpu)) = RShed /\
-    (* the real Allow admits the same request after the same history *)
+    (* the real Allow lets the same request in after the same history *)
     snd (step (final (init c t0) pre) (OAllow now cpu cpu)) = RAdmit.
 Proof.
   exists default_config, B,
@@ -188,6 +188,7 @@ Qed.
 Definition rpc_wrap_nodefer (v : verdict) (o : rpc_outcome) : wrap_result :=
   match v, o with
   | VGrant, GPanic => mkWR 1 0 0 (VisRpc GPanic) true
+  | VGrant, GPanicOverloaded => mkWR 1 0 0 (VisRpc GPanicOverloaded) true
   | _, _ => rpc_wrap v o
   end.
 
